@@ -108,7 +108,8 @@ func genRepeatCase(t *rapid.T) Case {
 		}
 		return tr
 	})
-	c.Rp = &RepeatCase{Tracks: rapid.SliceOfNDistinct(track, 4, len(repeatHelpers), func(tr RepeatTrack) string { return tr.Helper }).Draw(t, "tracks")}
+	// every helper once per case (a case costs 2-3 s of sleeping whatever the number of tracks; a hand-minimised replay may hold fewer)
+	c.Rp = &RepeatCase{Tracks: rapid.SliceOfNDistinct(track, len(repeatHelpers), len(repeatHelpers), func(tr RepeatTrack) string { return tr.Helper }).Draw(t, "tracks")}
 	return c
 }
 
@@ -469,7 +470,7 @@ func (r *repeatTrackRun) drive() {
 
 var propRepeat = vkit.Prop[Case]{
 	ID: "C14",
-	Rule: "(repeat) 4-6 long-lived client helpers (client.SignedJWTProfileAssertion on one signer, oidc.GenerateJWTProfileToken / NewJWTProfileAssertionStringFromFileData, rs.NewResourceServerJWTProfile, " +
+	Rule: "(repeat) the 6 long-lived client helpers (client.SignedJWTProfileAssertion on one signer, oidc.GenerateJWTProfileToken / NewJWTProfileAssertionStringFromFileData, rs.NewResourceServerJWTProfile, " +
 		"profile.NewJWTProfileTokenSource / ...FromKeyFileData, tokenexchange.NewTokenExchangerJWTProfile, rp with JWT profile signer), each against its own legacy-router provider whose JWT-profile verifier allows " +
 		"assertions of 1-2 s (offset 0-1 s), each called 2-3 times on ONE instance with real sleeps (total mostly max age + offset + 0.6..1.0 s, sometimes shorter), tracks in parallel goroutines; " +
 		"every call's assertion must be accepted at the time of that call (a call that itself took > 0.4 s is not judged). " +
